@@ -7,6 +7,7 @@ func Gen(t *rapid.T) *Case {
 	c.NilPH = rapid.SampledFrom([]string{"", "", "option", "setter", "unset"}).Draw(t, "nilPH")
 	if c.PanicHandler {
 		c.PHDelayUs = rapid.SampledFrom([]int{0, 0, 100, 1000, 3000}).Draw(t, "phdelay")
+		c.PHResets = rapid.IntRange(0, 2).Draw(t, "phResets") == 0
 	}
 	c.CancelLast = rapid.IntRange(0, 2).Draw(t, "cancelLast") == 0
 	c.Obs = rapid.IntRange(0, 2).Draw(t, "obs") == 0
